@@ -21,6 +21,11 @@ def spec_for(seed):
     spec = wp.spec_from_seed(seed, boundary=False, finite_clock=False)
     o = spec["options"]
     o["num_chains"] = r.choice([1, 2, 2, 3, 3, 4])
+    r2 = random.Random(seed ^ 0x5EED)
+    if r2.random() < 0.12:
+        o["num_chains"] = r2.choice([6, 9])  # more chains than any simulated core count
+    if r2.random() < 0.15:
+        o["seed"] = r2.choice([0, 0, 1, 2 ** 32 - 1, 2 ** 32, 2 ** 63 - 1])  # "all seeds": falsy, and beyond 32 bits
     o["num_iters"] = r.choice([2, 4, 8])
     o["grid_size"] = r.choice([11, 21])
     o["outlier_prob"] = r.choice([0.0, 0.0, 0.01, 0.3])
